@@ -599,9 +599,10 @@ func (c *otContext) ensureMonotoneClusters() {
 		if a, b := info[i-1].Cluster, info[i].Cluster; a == b || (a < b) == ascending {
 			continue
 		}
-		// out of order: merge with every earlier glyph that is on the wrong side of info[i]
+		// out of order: merge with the earlier glyphs that are on the wrong side of info[i],
+		// and with those of the same cluster that the former have cut off from it
 		j := i - 1
-		for j > 0 && info[j-1].Cluster != info[i].Cluster && (info[j-1].Cluster < info[i].Cluster) != ascending {
+		for j > 0 && (info[j-1].Cluster == info[i].Cluster || (info[j-1].Cluster < info[i].Cluster) != ascending) {
 			j--
 		}
 		buffer.mergeClusters(j, i+1)
